@@ -89,7 +89,7 @@ def havoc_locals(it, fr, node, lc, tag):
         if shp is None:
             # no shape given: the local counts as unassigned at the loop head (every iteration must
             # assign it before reading it; reading it first is an engine error, not a guess)
-            fr.locals[nme] = V.UNBOUND
+            fr.locals[nme] = V.LOOP_UNKNOWN
             continue
         fr.locals[nme] = shp.fresh(it.ctx, f'{tag}_{nme}')
     for pname, shp in lc.havoc_heap.items():
